@@ -265,6 +265,23 @@ def check' (name : String) (path : Path) (k : Nat) (flag : Bool) (before after :
     | .loop _ nlo _ _ _ :: _ => same' (rewriteAt (shiftLoop nlo) path before) after
     | _ => throw "shift_loop: unexpected shape"
   | "unroll_loop" => same' (rewriteAt unrollLoop path before) after
+  | "lift_scope" =>
+    -- `path` addresses the INNER statement (the cursor `lift_scope` is given); the rewrite acts on
+    -- its parent; the last step says whether the inner statement is in a `then`/loop body or in
+    -- an `else` block
+    let opath := path.dropLast
+    match path.getLast?, getAt opath before with
+    | some (.body _), some (.ite _ [.ite _ _ _] _ :: _) =>
+      same' (rewriteAt liftIfThen opath before) after
+    | some (.orelse _), some (.ite _ _ [.ite _ _ _] :: _) =>
+      same' (rewriteAt liftIfElse opath before) after
+    | some (.body _), some (.ite _ [.loop _ _ _ _ _] [] :: _) =>
+      same' (rewriteAt liftForOutOfIf opath before) after
+    | some (.body _), some (.loop _ _ _ [.ite _ _ _] _ :: _) =>
+      same' (rewriteAt liftIfOutOfLoop opath before) after
+    | some (.body _), some (.loop _ _ _ [.loop _ _ _ _ _] _ :: _) =>
+      same' (rewriteAt reorderLoops opath before) after
+    | _, _ => throw "lift_scope: unexpected shape"
   | "mult_loops" =>
     match sa with
     | .loop k _ _ _ _ :: _ => same' (rewriteAt (multLoops k) path before) after
